@@ -218,6 +218,18 @@ class Ctx:
             if time.time() - old.stat().st_mtime > 1800:
                 shutil.rmtree(old, ignore_errors=True)
         d.mkdir(parents=True, exist_ok=True)
+        import fcntl
+        lock = open(str(d) + ".lock", "w")
+        fcntl.flock(lock, fcntl.LOCK_EX)       # one builder per tree; others wait and then find the stamp
+        try:
+            return self._build_gama_locked(d, stamp, want, sanitize, targets)
+        finally:
+            fcntl.flock(lock, fcntl.LOCK_UN)
+            lock.close()
+
+    def _build_gama_locked(self, d, stamp, want, sanitize, targets):
+        if stamp.exists() and all(w.exists() for w in want):
+            return d
         cxx = f"-D{GUARD} -g -O1" + (" -fsanitize=address,undefined -fno-sanitize-recover=all -fno-omit-frame-pointer" if sanitize else "")
         rc, out, err = sh(["cmake", "-G", "Ninja", "-S", str(REPO), "-B", str(d), "-DCMAKE_BUILD_TYPE=None",
                            f"-DCMAKE_CXX_FLAGS={cxx}", f"-DCMAKE_C_FLAGS=-O1"
